@@ -177,7 +177,7 @@ C18_Intervals(C, R) ==
 (* ---------------------------------------------------------------- C19 *)
 \* protocol flags accumulated event by event (see Trace_Stepper)
 C19_Protocol(C, A, R) ==
-    IsLow(R) =>
+    (IsLow(R) /\ ~C.nocb) =>                                                    \* (nocb: the solver was called without a callback)
       /\ A.cbBad = 0                                                            \* initial call, contiguity, interpolant bounds
       /\ A.afterStop = 0                                                        \* nothing after Interrupt
       /\ A.modBad = 0                                                           \* derivative re-evaluated at the written state
